@@ -11,6 +11,7 @@ from hypergraph.exceptions import ExecutionError, MissingInputError
 from hypergraph.runners._shared.helpers import (
     _UNSET_SELECT,
     _validate_error_handling,
+    _validate_max_concurrency,
     _validate_on_missing,
     filter_outputs,
     generate_map_inputs,
@@ -172,6 +173,7 @@ class AsyncRunnerTemplate(BaseRunner, ABC):
         )
         _validate_on_missing(on_missing)
         _validate_error_handling(error_handling)
+        _validate_max_concurrency(max_concurrency)
 
         max_iter = max_iterations or self.default_max_iterations
         dispatcher = self._create_dispatcher(event_processors)
@@ -279,6 +281,7 @@ class AsyncRunnerTemplate(BaseRunner, ABC):
         _validate_error_handling(error_handling)
 
         _validate_on_missing(on_missing)
+        _validate_max_concurrency(max_concurrency)
 
         map_over_list = [map_over] if isinstance(map_over, str) else list(map_over)
         missing_mapped = sorted(name for name in map_over_list if name not in normalized_values)
